@@ -33,6 +33,8 @@ SIG_F4B = ("C09:F4b IntegratorLearner.ask(tell_pending=False) beyond the stack i
            "(snapshot aliases ivals / pending_points mutated by _fill_stack)")
 SIG_F7 = "C09:F7 Learner2D unusable on numpy>=2.x/scipy>=1.15 (choose_point_in_triangle raises)"
 SIG_F16 = "C09:F16 BalancingLearner over IntegratorLearner cannot ask (IntegratorLearner.tell_pending() takes no point)"
+SIG_F18 = ("C09:F18 BalancingLearner.ask(tell_pending=False) rebuilds Learner1D-type children through tell_many "
+           "(restore via __setstate__): x-scale, bounding box and interval bookkeeping differ afterwards")
 SIG_F17 = ("C09:F17 BalancingLearner.ask(tell_pending=False) resets AverageLearner1D children to default parameters "
            "(restore via __setstate__ re-runs __init__ without delta/alpha/min_samples/...)")
 
@@ -105,6 +107,7 @@ def pre_state(ad, l):
     st = {"child_pending": None, "inflight": [], "params": None}
     if ad.spec["kind"] == "Bal":
         st["child_pending"] = [frozenset(ad.child.pending(c)) for c in l.learners]
+        st["child_fp"] = [G.fp_attrs(c) for c in l.learners]
         if ad.child.spec["kind"] == "Avg1D":
             st["params"] = [avg1d_params(c) for c in l.learners]
     for a, b in leaves(ad, l):
@@ -142,35 +145,50 @@ def known_mechanism(ad, l, pre):
 
 
 def cycle_pos(l):
-    c = getattr(l, "_cycle", None)
-    if c is None:
+    """Position of the 'cycle' strategy's iterator.  copy.copy(itertools.cycle) is wrong during the first pass, so the
+    position is read by consuming one element and installing an equivalent fresh iterator (counterfactual twins only)."""
+    if getattr(l, "_cycle", None) is None:
         return None
+    pos = next(l._cycle)
+    l._cycle = itertools.cycle(range(len(l.learners)))
+    for _ in range(pos):
+        next(l._cycle)
+    return pos
+
+
+def save_balancing_private(l):
     import copy
-    with warnings.catch_warnings():
-        warnings.simplefilter("ignore")
-        return next(copy.copy(c))
+    return (copy.deepcopy(l._ask_cache), dict(l._loss), dict(l._pending_loss), cycle_pos(l))
 
 
-def reset_balancing_private(l, pos):
-    """Counterfactual repair used only to attribute a failure to F3b."""
-    l._ask_cache, l._loss, l._pending_loss = {}, {}, {}
+def restore_balancing_private(l, saved):
+    """Counterfactual repair used only to attribute a failure to F3b: put the
+    BalancingLearner's own caches and _cycle back to what they were."""
+    import copy
+    cache, loss, ploss, pos = saved
+    l._ask_cache, l._loss, l._pending_loss = copy.deepcopy(cache), dict(loss), dict(ploss)
     if pos is not None:
-        n = len(l.learners)
-        l._cycle = itertools.cycle(range(n))
+        l._cycle = itertools.cycle(range(len(l.learners)))
         for _ in range(pos):
             next(l._cycle)
 
 
+L1D_REBUILD_ATTRS = {"_scale", "_bbox", "_oldscale", "losses", "losses_combined", "neighbors", "neighbors_combined",
+                     "_distances", "rescaled_error", "error", "_vdim", "_undersampled_points", "_number_samples", "_data_samples", "data"}
+
+
+def children_changed(ad, l, pre):
+    """{child index: [attributes whose fingerprint changed]} across the non-committing ask."""
+    out = {}
+    for i, (c, before) in enumerate(zip(l.learners, pre["child_fp"])):
+        now = G.fp_attrs(c)
+        ch = sorted(k for k in set(before) | set(now) if before.get(k) != now.get(k))
+        if ch:
+            out[i] = ch
+    return out
+
+
 # ---------------------------------------------------------------- the twin experiment at one state
-def continuation(ad, B, rng):
-    """Ops chosen while driving the untouched twin B; returns [(op, outcome_on_B)]."""
-    trace = []
-    out = G.apply_op(ad, B, ["ask", rng.choice([1, 2, 3, 5]), True])
-    trace.append((["ask", trace and 0 or 0, True], out))
-    trace[-1] = (["ask", len(out[1]) if not G.is_exc(out) else 1, True], out)
-    return trace
-
-
 def run_continuation(ad, X, B, rng):
     """Same ops on the probed learner X and the untouched twin B; first difference or None."""
     script = [("ask", rng.choice([1, 2, 3, 5])), ("tell", 2), ("ask", rng.choice([1, 2, 4])), ("askf", rng.choice([1, 3])),
@@ -230,24 +248,39 @@ def probe_state(ad, H, n, seed):
         if d:
             generic.append(("state", f"{d[0]} changed by the {tag} ask({n}, tell_pending=False): {G.short(s0[d[0]])} -> {G.short(s[d[0]])}"))
             break
+    chg = children_changed(ad, A, pre) if is_bal else {}
     B = G.replay(ad, H)
-    posB = cycle_pos(B) if is_bal else None
+    for _ in range(3):
+        G.snapshot(ad, B)       # the same read-only observations as on A (loss() fills caches)
     msg, _ = run_continuation(ad, A, B, random.Random(seed))
     if msg:
         generic.append(("later", msg))
+    if generic and is_bal and chg:
+        attrs = sorted({a for v in chg.values() for a in v})
+        if G.base_kind(ad.spec) in ("L1D", "Avg1D") and set(attrs) <= L1D_REBUILD_ATTRS:
+            return [(SIG_F18, f"{name} after {len(H)} ops: {generic[0][1]}; children {sorted(chg)} came back from the restore with "
+                              f"different {attrs}")], True
     if generic and is_bal:
         # counterfactual: same experiment, but the BalancingLearner's private caches and _cycle are put back by hand
         A2, B2 = G.replay(ad, H), G.replay(ad, H)
+        for _ in range(3):
+            G.snapshot(ad, B2)
+        G.snapshot(ad, A2)
+        saved = save_balancing_private(A2)
         G.apply_op(ad, A2, ["ask", n, False])
-        reset_balancing_private(A2, posB)
+        restore_balancing_private(A2, saved)
+        G.snapshot(ad, A2)
         q1 = G.apply_op(ad, A2, ["ask", n, False])
-        reset_balancing_private(A2, posB)
-        reset_balancing_private(B2, posB)
+        restore_balancing_private(A2, saved)
         ok = G.answer_key(q1) == G.answer_key(r1) and not G.diff_snap(s0, G.snapshot(ad, A2))
         msg2, _ = run_continuation(ad, A2, B2, random.Random(seed))
         if ok and not msg2:
             return [(SIG_F3B, f"{name} after {len(H)} ops: {generic[0][1]} (vanishes when _ask_cache/_loss/_pending_loss/_cycle "
                               f"are put back by hand)")], True
+        if chg:
+            attrs = sorted({a for v in chg.values() for a in v})
+            return [(f"C09:{G.spec_name(_sig_spec(ad.spec))}:children-not-restored",
+                     f"{name} after {len(H)} ops: {generic[0][1]}; children {sorted(chg)} differ in {attrs} after the call")], False
     for clause, m in generic:
         fails.append((f"C09:{G.spec_name(_sig_spec(ad.spec))}:{clause}", f"{name} after {len(H)} ops: {m}"))
     if generic:
